@@ -86,6 +86,9 @@ class C06(Prop):
             if b == "PANIC":
                 return {"kind": "panic", "event": k, "detail": b}
             toks = parse_tokens(b)
+            root = case.field("root")
+            if root and root[0][0] == "behavior" and e[0] == "next":
+                toks = toks[1:]              # BehaviorSubject::next stores the value (its own cell) first
             first = next((n for kind, n, held in toks if kind == "a"), None)
             for kind, n, held in toks:
                 if kind == "c" and first is not None and first not in held:
